@@ -39,7 +39,8 @@ ASSUMPTIONS = [
 
 def GATES(tier):
     return [("reads_judged", 3000), ("stale_candidates", 300), ("cached_reads_without_getter", 200), ("override_reads", 50), ("chain_reads", 200),
-            ("failed_mutations", 50), ("copy_results_checked", 200), ("wildcard_graphs", 3), ("subclass_dependants", 3), ("post_init_fills", 3)] + [
+            ("failed_mutations", 50), ("copy_results_checked", 200), ("wildcard_graphs", 3), ("subclass_dependants", 3), ("post_init_fills", 3), ("subclass_overrides_property", 5),
+            ("frozen_graphs", 5), ("deleter_graphs", 5), ("post_init_mutates_dependency", 5)] + [
         (f"entry:{e}", 10) for e in ("setattr", "delattr", "with", "transform_attr", "reset_attr", "with_item", "without_item", "update", "transform", "reset")
     ]
 
@@ -50,7 +51,7 @@ def make_source(g):
         "from typing import Any, List",
         "from spec_classes import spec_class, spec_property, Attr",
         "",
-        f"@spec_class(bootstrap={g['boot']})",
+        f"@spec_class(bootstrap={g['boot']}{', frozen=True' if g.get('frozen') else ''})",
         "class M:",
         "    a: int = 1",
         f"    b: int = Attr(default=10{', invalidated_by=' + repr(g['b_inv']) if g['b_inv'] else ''})",
@@ -64,10 +65,19 @@ def make_source(g):
             opts.append(f"invalidated_by={spec['inv']!r}")
         reads = ", ".join(f"_rd(self, {d!r})" for d in spec["reads"])
         L += ["", f"    @spec_property({', '.join(opts)})", f"    def {name}(self):", f"        PROBE.enter('get:{name}')", f"        return [{name!r}, {reads}]"]
+        if name == "p" and g.get("p_deleter"):
+            # a user-written deleter: invalidation runs it, and still drops the cached / overridden value
+            L += ["", "    @p.deleter", "    def p(self):", "        PROBE.enter('del:p')"]
     if g["post_init"]:
         L += ["", "    def __post_init__(self):", "        self.p", "        self.q"]
+        if g["post_init"] == "fill_then_mutate":
+            L += ["        self.a = self.a + 1  # a dependency changes after the caches were filled, still inside construction"]
     L += ["", f"@spec_class(bootstrap={g['boot']})", "class S(M):", f"    d: int = Attr(default=100, invalidated_by=['a'])", "",
           "    @spec_property(cache=True, invalidated_by=['a'])", "    def r(self):", "        PROBE.enter('get:r')", "        return ['r', _rd(self, 'a')]", ""]
+    if g.get("s_p"):
+        sp = g["s_p"]
+        reads = ", ".join(f"_rd(self, {d!r})" for d in sp["reads"])
+        L += [f"    @spec_property(cache={sp['cache']}, invalidated_by={sp['inv']!r})", "    def p(self):  # overrides M.p with a longer dependency list", "        PROBE.enter('get:p')", f"        return ['p', {reads}]", ""]
     return "\n".join(L)
 
 
@@ -113,6 +123,8 @@ class Model:
     def spec(self, n):
         if n == "r":
             return {"cache": True, "inv": ["a"], "reads": ["a"]}
+        if n == "p" and self.cname == "S" and self.g.get("s_p"):
+            return self.g["s_p"]
         return self.g[n]
 
     def fork(self):
@@ -166,10 +178,22 @@ def run(ctx, params):
     if params.get("max_graphs"):
         graphs = rng.sample(graphs, min(len(graphs), params["max_graphs"]))
     for gi, g0 in enumerate(graphs):
-        g = dict(g0, boot=rng.random() < 0.5, post_init=rng.random() < 0.3)
+        g = dict(g0, boot=rng.random() < 0.5, post_init=rng.choice([None, None, "fill", "fill_then_mutate"]), frozen=rng.random() < 0.2, p_deleter=rng.random() < 0.3)
+        extra = [d for d in ("a", "b", "c") if d not in g0["p"]["inv"]]
+        if "*" not in g0["p"]["inv"] and extra and rng.random() < 0.4:
+            inv = list(g0["p"]["inv"]) + [extra[0]]
+            g["s_p"] = {"cache": True, "inv": inv, "reads": reads_of(inv)}
+            ctx.count("subclass_overrides_property")
+        if g["frozen"]:
+            ctx.count("frozen_graphs")
+        if g["p_deleter"]:
+            ctx.count("deleter_graphs")
+        if g["post_init"] == "fill_then_mutate":
+            ctx.count("post_init_mutates_dependency")
         probe = faults.Probe()
         ns = cg.exec_module(make_source(g), extra={"PROBE": probe, "_rd": _rd}, prefix="verif_c11").__dict__
-        glabel = f"p(c={int(g['p']['cache'])},inv={g['p']['inv']}) q(c={int(g['q']['cache'])},inv={g['q']['inv']}) b_inv={g['b_inv']} post_init={g['post_init']}"
+        glabel = (f"p(c={int(g['p']['cache'])},inv={g['p']['inv']}) q(c={int(g['q']['cache'])},inv={g['q']['inv']}) b_inv={g['b_inv']} post_init={g['post_init']}"
+                  f"{' frozen' if g['frozen'] else ''}{' p.deleter' if g['p_deleter'] else ''}{' S.p.inv=' + str(g['s_p']['inv']) if g.get('s_p') else ''}")
         if "*" in g["p"]["inv"] or "*" in g["q"]["inv"]:
             ctx.count("wildcard_graphs")
         if g["post_init"]:
@@ -182,8 +206,12 @@ def run(ctx, params):
                 m = Model(g, cname)
                 if g["post_init"]:
                     for n in ("p", "q"):
-                        if g[n]["cache"]:
+                        if m.spec(n)["cache"]:
                             m.slots[n] = ("cached", None)
+                    if g["post_init"] == "fill_then_mutate":
+                        for d in m.dependants("a"):
+                            if d in m.slots:
+                                m.slots[d] = ("empty", None)
                 live.append((inst, m))
                 if cname == "S":
                     ctx.count("subclass_dependants")
@@ -205,12 +233,18 @@ def run(ctx, params):
                 elif kind == "override":
                     n = rng.choice(m.props())
                     v = ["override", step]
-                    setattr(inst, n, v)
-                    m.slots[n] = ("override", v)
-                    desc = f"i{idx}.{n} = {v}"
-                    for d in m.dependants(n):
-                        if d in m.slots:
-                            m.slots[d] = ("empty", None)
+                    try:
+                        setattr(inst, n, v)
+                    except Exception as e:
+                        if not g["frozen"]:
+                            raise
+                        desc = f"i{idx}.{n} = {v} -> {type(e).__name__}"
+                    else:
+                        m.slots[n] = ("override", v)
+                        desc = f"i{idx}.{n} = {v}"
+                        for d in m.dependants(n):
+                            if d in m.slots:
+                                m.slots[d] = ("empty", None)
                 elif kind == "del_override":
                     n = rng.choice(m.props())
                     try:
@@ -222,6 +256,10 @@ def run(ctx, params):
                         desc = f"del i{idx}.{n}"
                     except AttributeError:
                         desc = f"del i{idx}.{n} (nothing to delete)"
+                    except Exception as e:
+                        if not g["frozen"]:
+                            raise
+                        desc = f"del i{idx}.{n} -> {type(e).__name__}"
                 elif kind in ("mutate", "fail"):
                     target = rng.choice(["a", "a", "b", "c", "u"] + (["d"] if m.cname == "S" else []))
                     inplace = rng.random() < 0.6
@@ -358,5 +396,5 @@ def choose_entry(rng, target, failing):
 
 def plan(tier, seed):
     if tier == "quick":
-        return [{"shard": i, "part": i, "parts": 16, "histories": 2, "length": 14} for i in range(16)]
+        return [{"shard": i, "part": i, "parts": 16, "histories": 4, "length": 14} for i in range(16)]
     return [{"shard": i, "part": i % 16, "parts": 16, "histories": 30, "length": 20} for i in range(32)]
